@@ -11,7 +11,7 @@ CLAIMED = {
         'words imply equal normalised operand tuples; C01_registers: lookup_register accepts exactly the documented spellings. The 9 format '
         'encoders are proved equal to arithmetic normal forms symbolically (no sweep). C01_line_end_to_end: for every three-register mnemonic of '
         'the R-type table and any operand tokens, the parser model and all 16 passes of the pass model turn the token line into exactly the '
-        'four little-endian bytes of the generated encoder\'s word (front end, passes and encoders composed inside Coq); C01_imm_line_end_to_end / C01_transfer_line_end_to_end: the same for the I-, S-, U-type tables and for branches / jal with a literal immediate. Falsifier: real encoders + one-line text path over full '
+        'four little-endian bytes of the generated encoder\'s word (front end, passes and encoders composed inside Coq); C01_imm_line_end_to_end / C01_transfer_line_end_to_end: the same for the I-, S-, U-type tables and for branches / jal with a literal immediate; C01_text_line_end_to_end: from the TEXT of the line in any separator style (C13_line) through lexer, parser and passes to those bytes. Falsifier: real encoders + one-line text path over full '
         'immediate ranges, decoded by the extracted Spec.',
    note='Trusted: Coq kernel, py2coq, Spec decoder + operand reading (Spec/RV32.v, Spec/Operands.v), hand model of int(s,0) (PyBase.py_int_lit, differentially tested), '
         'extraction/drivers. The little-endian packing and the text front end are covered by the falsifier (text path) and by C09/C13, not by these theorems. Zero axioms.',
